@@ -104,6 +104,7 @@ def feasible_sign(d, sign):
 class ContDomain(Domain):
     max_depth = 7
     loop_unroll = 1
+    correlate_unknowns = True      # an opaque condition (a bool parameter) read twice on a path has one value
 
     def __init__(self, T, is_class, rows=None, objs=('this',)):
         self.T = T; self.is_class = is_class; self.rows = rows or {}
@@ -421,7 +422,15 @@ class ContDomain(Domain):
                 ex.write(la, vb, st, n); ex.write(lb, va, st, n)
                 self.c_event(st, n, 'swap', la, lb)
             return None
-        if q in ('std::copy', 'std::equal', 'std::fill', 'std::copy_n', 'std::uninitialized_copy', 'std::uninitialized_copy_n', 'std::move', 'std::reverse', 'std::rotate'):
+        r_ = self._std_range_algo(ex, n, q, base, args, st, fr)
+        if r_ is not None: return r_[0]
+        if q == 'std::for_each' and len(args) == 3 and self._sum_foreach(ex, n, args, st, fr): return Sym('ret:for_each')
+        if q in ('std::copy', 'std::equal', 'std::fill', 'std::copy_n', 'std::uninitialized_copy', 'std::uninitialized_copy_n', 'std::move', 'std::reverse', 'std::rotate',
+                 'std::for_each', 'std::transform', 'std::generate', 'std::generate_n', 'std::uninitialized_move', 'std::uninitialized_move_n', 'std::destroy', 'std::destroy_n',
+                 'std::uninitialized_fill', 'std::uninitialized_fill_n', 'std::uninitialized_value_construct', 'std::uninitialized_value_construct_n',
+                 'std::uninitialized_default_construct', 'std::uninitialized_default_construct_n', 'std::fill_n', 'std::move_backward', 'std::copy_backward', 'std::swap_ranges'):
+            # an element-range algorithm in a form that is not modelled: everything said about element lifetimes in this function is inexact
+            self.imprecise.append(('algorithm ' + q, n.shortloc()))
             self.c_event(st, n, 'algo', q, [ex._rvalue(a, st, fr) if a is not None else None for a in args]); return Sym(f'ret:{base}')
         if q.startswith('std::initializer_list'):
             o = n.n('object')
@@ -439,6 +448,88 @@ class ContDomain(Domain):
         if q == '__assert_fail' or base == '__assert_fail': return None
         self.c_event(st, n, 'extcall', q, vals)
         return Sym(f'ret:{base}@{n.line}')
+
+    def _sum_foreach(self, ex, n, args, st, fr):
+        """std::for_each(X.begin(), X.end(), closure) over an initializer_list: the closure body is evaluated once on logical element
+        k, with every pointer it captured by reference standing at start + k (it must step each by exactly one)"""
+        a0 = ex._rvalue(args[0], st, fr); a1 = ex._rvalue(args[1], st, fr); clo = ex._rvalue(args[2], st, fr)
+        if not (isinstance(a0, Sym) and a0.name == 'il.begin' and isinstance(a1, Sym) and a1.name == 'il.end' and isinstance(clo, Closure) and clo.fn is not None): return False
+        if len(clo.fn.d['params']) != 1: return False
+        isym = f'k#{next(self.fresh)}'; count = Lin.sym('il.size')
+        st2 = st.clone(); sub = Frame(clo.fn, fr.this, fr.depth + 1)
+        stepped = {}
+        for dk, (mode, v) in clo.env.items():
+            if mode == 'val': st2.store[('l', sub.id, dk)] = v; continue
+            st2.store[('l', sub.id, dk)] = Ref(v)
+            cur = st.store.get(v)
+            if isinstance(cur, Ptr) and isinstance(cur.off, Lin): st2.store[v] = Ptr(cur.base, cur.off + Lin.sym(isym)); stepped[v] = cur
+            elif isinstance(cur, Lin): st2.store[v] = cur + Lin.sym(isym); stepped[v] = cur
+        st2.store[('l', sub.id, clo.fn.d['params'][0]['decl'])] = ElemRef(obj='il', k=Lin.sym(isym))
+        n0 = len(st2.events)
+        outs = [(s_, f_, e_) for s_, f_, e_ in ex._walk(sub, st2)]
+        if len(outs) != 1 or outs[0][2] not in ('exit', 'return'): return False
+        st3 = outs[0][0]
+        for loc, cur in stepped.items():
+            new = st3.store.get(loc)
+            want = Ptr(cur.base, cur.off + Lin.sym(isym) + Lin.const(1)) if isinstance(cur, Ptr) else cur + Lin.sym(isym) + Lin.const(1)
+            same = (new == want) if isinstance(cur, Ptr) else (isinstance(new, Lin) and new == want)
+            unchanged = (new == st2.store.get(loc)) if isinstance(cur, Ptr) else (isinstance(new, Lin) and new == cur + Lin.sym(isym))
+            if not (same or unchanged): return False
+            if unchanged: stepped[loc] = None
+        if self._ranges_from(st3.events[n0:], isym, Lin.const(0), count, st, n) is None: return False
+        for loc, cur in stepped.items():
+            if cur is None: continue
+            st.store[loc] = Ptr(cur.base, cur.off + count) if isinstance(cur, Ptr) else cur + count
+        return True
+
+    def _std_range_algo(self, ex, n, q, base, args, st, fr):
+        """<memory> / <algorithm> calls over raw pointer ranges of the element storage as range events; returns (result,) or None"""
+        A = [ex._rvalue(a, st, fr) if a is not None else None for a in args]
+        def P(v): return v if isinstance(v, Ptr) and isinstance(v.off, Lin) else None
+        def rng(first, last=None, cnt=None):
+            f_ = P(first)
+            if f_ is None: return None
+            if last is not None:
+                l_ = P(last)
+                if l_ is None or l_.base != f_.base: return None
+                return f_.base, f_.off, l_.off
+            c_ = as_lin(cnt) if isinstance(cnt, (Lin, int)) else None
+            if c_ is None: return None
+            return f_.base, f_.off, f_.off + c_
+        def emit(kind, r, src):
+            self.c_event(st, n, 'range', kind, ('raw', r[0]), r[1], r[2], src)
+        def src_of(first, r):
+            s_ = P(first)
+            if s_ is None: return None
+            return ('raw', s_.base, s_.off, s_.off + (r[2] - r[1]))
+        def valsrc(v): return ('value', repr(v))
+        res = None
+        if q in ('std::uninitialized_copy_n', 'std::uninitialized_move_n', 'std::copy_n') and len(A) == 3:
+            r = rng(A[2], cnt=A[1])
+            if r and P(A[0]) is not None: emit('construct' if 'uninit' in q else 'assign', r, src_of(A[0], r)); res = Ptr(r[0], r[2])
+        elif q in ('std::uninitialized_copy', 'std::uninitialized_move', 'std::copy', 'std::move') and len(A) == 3:
+            s_ = rng(A[0], last=A[1]); d_ = P(A[2])
+            if s_ and d_ is not None:
+                r = (d_.base, d_.off, d_.off + (s_[2] - s_[1])); emit('construct' if 'uninit' in q else 'assign', r, ('raw', s_[0], s_[1], s_[2])); res = Ptr(r[0], r[2])
+        elif q in ('std::uninitialized_fill_n', 'std::fill_n') and len(A) == 3:
+            r = rng(A[0], cnt=A[1])
+            if r: emit('construct' if 'uninit' in q else 'assign', r, valsrc(A[2])); res = Ptr(r[0], r[2])
+        elif q in ('std::uninitialized_fill', 'std::fill') and len(A) == 3:
+            r = rng(A[0], last=A[1])
+            if r: emit('construct' if 'uninit' in q else 'assign', r, valsrc(A[2])); res = Sym('void')
+        elif q in ('std::uninitialized_value_construct', 'std::uninitialized_default_construct') and len(A) == 2:
+            r = rng(A[0], last=A[1])
+            if r: emit('construct', r, ('value', 'T()')); res = Sym('void')
+        elif q in ('std::uninitialized_value_construct_n', 'std::uninitialized_default_construct_n') and len(A) == 2:
+            r = rng(A[0], cnt=A[1])
+            if r: emit('construct', r, ('value', 'T()')); res = Ptr(r[0], r[2])
+        elif q == 'std::destroy' and len(A) == 2:
+            r = rng(A[0], last=A[1])
+            if r: emit('destroy', r, None); res = Sym('void')
+        elif q == 'std::destroy_n' and len(A) == 2:
+            r = rng(A[0], cnt=A[1])
+            if r: emit('destroy', r, None); res = Ptr(r[0], r[2])
+        return (res,) if res is not None else None
 
     def sizeof_value(self, n):
         at = n.d.get('argtype')
@@ -517,8 +608,9 @@ class ContDomain(Domain):
         is_iv = lambda x: x is not None and x.k == 'ref' and x.decl == iv
         # i < b, i != b, b > i, b != i   (for `!=` the start must not exceed the bound: checked below)
         if cond.k != 'binop': return None
-        if cond.op in ('<', '!=') and is_iv(cond.n('lhs')): bound_node = cond.n('rhs')
-        elif cond.op in ('>', '!=') and is_iv(cond.n('rhs')): bound_node = cond.n('lhs')
+        plus1 = False
+        if cond.op in ('<', '!=', '<=') and is_iv(cond.n('lhs')): bound_node = cond.n('rhs'); plus1 = cond.op == '<='
+        elif cond.op in ('>', '!=', '>=') and is_iv(cond.n('rhs')): bound_node = cond.n('lhs'); plus1 = cond.op == '>='
         else: return None
         ne_form = cond.op == '!='
         inc_ok = (inc.k == 'unop' and inc.op == '++' and is_iv(inc.n('sub'))) or \
@@ -529,6 +621,7 @@ class ContDomain(Domain):
         if isinstance(b, Ref): b = ex.read(b.loc, st)
         bl = as_lin(b)
         if a is None or bl is None: return None
+        if plus1: bl = bl + Lin.const(1)          # i <= b  is  i < b + 1
         if not nonneg(bl - a):
             s = self.sign_of(bl - a)
             if s is None:
